@@ -210,6 +210,7 @@ func (x *Exec) havocLoop(st *State, fr *frame, li *loopInfo) {
 	for _, c := range sortedKeys(eff.comps) {
 		s.havocComp(st, c)
 	}
+	x.havocMaps(st, fr, eff.maps)
 	// locations: allocs of this function written in the loop, plus every location whose type is
 	// stored through a non-local pointer
 	for a := range eff.allocs {
@@ -276,6 +277,7 @@ type effects struct {
 	comps  map[string]bool
 	types  map[string]bool // type keys of objects written through non-local pointers; "[]T" for slice elements
 	allocs map[*ssa.Alloc]bool
+	maps   map[ssa.Value]bool // maps updated (by their defining value)
 	seen   map[*ssa.Function]bool
 	iters  bool
 }
@@ -306,6 +308,11 @@ func (x *Exec) blockEffects(b *ssa.BasicBlock, eff *effects, depth int) {
 				}
 				eff.nexts[in.Iter] = true
 			}
+		case *ssa.MapUpdate:
+			if eff.maps == nil {
+				eff.maps = map[ssa.Value]bool{}
+			}
+			eff.maps[in.Map] = true
 		case *ssa.Store:
 			root := rootOf(in.Addr)
 			if a, ok := root.(*ssa.Alloc); ok {
